@@ -1,6 +1,7 @@
 package engines
 
 import (
+	"bytes"
 	"errors"
 	"fmt"
 	"io"
@@ -220,6 +221,9 @@ func (r *Runner) Exec(t []string) string {
 	return "bad-op"
 }
 
+// plainReader hides every optional interface of a reader (WriterTo, Seeker, …).
+type plainReader struct{ io.Reader }
+
 // fileOp2 is FileOp with the unified error classes.
 func fileOp2(h afero.File, t []string) string {
 	switch t[0] {
@@ -236,6 +240,9 @@ func fileOp2(h afero.File, t []string) string {
 		return fmt.Sprintf("n=%d err:%s", n, ErrClass(err))
 	case "writestring":
 		n, err := h.WriteString(string(corr.UnHex(t[2])))
+		return fmt.Sprintf("n=%d err:%s", n, ErrClass(err))
+	case "readfrom": // io.Copy into the handle from a plain reader: io.ReaderFrom if the handle has it, Write otherwise
+		n, err := io.Copy(h, plainReader{bytes.NewReader(corr.UnHex(t[2]))})
 		return fmt.Sprintf("n=%d err:%s", n, ErrClass(err))
 	case "writeat":
 		n, err := h.WriteAt(corr.UnHex(t[2]), atoi64(t[3]))
